@@ -130,6 +130,19 @@ def generate(rng, index, cfg):
                                       "errno": rng.choice(["ENOMEM", "EAGAIN", "EMFILE"])}])
         if q["api"] == "cli":
             q["out"] = rng.random() < 0.3
+            if rng.random() < 0.4 and ncommits:
+                # raw command line: tokens that may be refs, paths, or both; the harness resolves them independently
+                toks = []
+                pool_refs = commits
+                pool_paths = [rel(p) for p in cands] + [rel(d or ".") for d in dirs] + ["nowhere.ipynb"]
+                arity = rng.choice([0, 1, 1, 2, 2, 3, 4])
+                for i in range(arity):
+                    if i < 2 and rng.random() < (0.7 if i == 0 else 0.4):
+                        toks.append(rng.choice(pool_refs))
+                    else:
+                        toks.append(rng.choice(pool_paths))
+                q["api"] = "cli_raw"
+                q["argv"] = toks
         ops.append(q)
 
     # initial content + first commit so that most histories have a HEAD
@@ -181,8 +194,13 @@ def generate(rng, index, cfg):
             commit()
         elif r < 0.84 and ncommits:
             name = "%s%d" % (rng.choice(["t", "b"]), len(refs))
-            ops.append({"op": "git", "argv": (["tag", name] if name[0] == "t" else ["branch", name])})
-            refs.append(name)
+            kind = "tag" if name[0] == "t" else "branch"
+            if rng.random() < 0.3:
+                # a ref whose name is also the name of a directory or file somewhere in the tree
+                name = rng.choice(["sub", "other", "a.ipynb", "z.ipynb", "deep", "notes.txt"])
+            if name not in refs:
+                ops.append({"op": "git", "argv": [kind, name]})
+                refs.append(name)
         else:
             query()
     for _ in range(rng.randint(1, 4)):
@@ -398,6 +416,39 @@ class Runner:
             # precondition vanished (e.g. after minimisation dropped an earlier op): logged no-op
             self.log.ev("noop", op=k, err=type(e).__name__)
 
+    # ---- independent reading of the documented command-line rule (ref vs path, tested relative to the cwd)
+    def _valid_ref(self, tok, cwd):
+        p = self.world.git("rev-parse", "--verify", "-q", "%s^{commit}" % (tok or "HEAD"), cwd=cwd, check=False)
+        return p.returncode == 0
+
+    def _tok_is_both(self, tok, cwd):
+        return tok is not None and os.path.exists(os.path.join(cwd, tok)) and self._valid_ref(tok, cwd)
+
+    def _is_ref(self, tok, cwd):
+        if tok is not None and (os.path.exists(os.path.join(cwd, tok)) or tok == "/dev/null"):
+            return False
+        return self._valid_ref(tok, cwd)
+
+    def resolve_cli(self, argv, cwd):
+        base = argv[0] if len(argv) > 0 else "HEAD"
+        remote = argv[1] if len(argv) > 1 else None
+        paths = list(argv[2:]) or None
+        isref = lambda t: self._is_ref(t, cwd)
+        if remote is None and paths is None:
+            if not isref(base):
+                paths, base = [base], "HEAD"
+        elif paths is None:
+            if isref(base) and not isref(remote):
+                paths, remote = [remote], None
+        else:
+            if not isref(base):
+                paths, base, remote = [base, remote] + paths, None, None
+            elif not isref(remote):
+                paths, remote = [remote] + paths, None
+        if not (isref(base) and isref(remote)):
+            return None
+        return (base or "HEAD", remote if remote is not None else "WORKING", paths)
+
     # ---- the query
     def do_query(self, q):
         import git.cmd
@@ -408,6 +459,28 @@ class Runner:
         if not os.path.isdir(cwd_abs):
             self.log.ev("noop", op="query", err="cwd missing")
             return
+        raw_argv = None
+        git_mode = True
+        if q["api"] in ("cli", "cli_raw"):
+            # Every command line goes through the harness' own reading of the documented rule, because a token may
+            # name both a ref and a path (relative to the cwd).
+            if q["api"] == "cli_raw":
+                raw_argv = list(q["argv"])
+                self.stat("cli_raw_queries")
+            else:
+                raw_argv = [q["ref_a"]] if q["ref_b"] == "WORKING" else [q["ref_a"], q["ref_b"]]
+                p0 = q.get("paths")
+                if p0:
+                    raw_argv += [p0] if isinstance(p0, str) else list(p0)
+            res = self.resolve_cli(raw_argv, cwd_abs)
+            if res is None:
+                git_mode = False      # two plain files (or nothing git can answer): only the cwd clauses apply
+                q = dict(q, api="cli", ref_a="HEAD", ref_b="WORKING", paths=None)
+                self.stat("cli_not_git_mode")
+            else:
+                q = dict(q, api="cli", ref_a=res[0], ref_b=res[1], paths=res[2])
+                if any(self._tok_is_both(t, cwd_abs) for t in raw_argv):
+                    self.stat("probe_cli_token_is_ref_and_path")
         ref_class = ("I" if q["ref_a"] == "INDEX" else "C") + {"INDEX": "I", "WORKING": "W"}.get(q["ref_b"], "C")
         from_sub = bool(q["cwd"])
         paths = q.get("paths")
@@ -485,6 +558,8 @@ class Runner:
                     argv = [q["ref_a"], q["ref_b"]]
                 if paths:
                     argv += [paths] if isinstance(paths, str) else list(paths)
+                if raw_argv is not None:
+                    argv = list(raw_argv)
                 if q.get("out"):
                     argv += ["--out", "diff-out.json"]
                 sink = io.StringIO()
@@ -523,6 +598,12 @@ class Runner:
         if q["api"] == "cli" and q.get("out") and yielded and outcome == "rc0" and not faulted and not handled:
             if not os.path.exists(os.path.join(cwd_abs, "diff-out.json")):
                 self.violate("G4b", sig_base, "--out file did not land in the directory nbdiff was run from")
+        if not git_mode:
+            self.stat("outcome_not_git_mode")
+            for d, _, files in os.walk(w.work):
+                if "diff-out.json" in files and ".git" not in d:
+                    os.remove(os.path.join(d, "diff-out.json"))
+            return
         # drop harness artefacts
         for d, _, files in os.walk(w.work):
             if "diff-out.json" in files and ".git" not in d:
